@@ -17,7 +17,7 @@ THEOREMS = [
     "dedup_order_irrelevant", "outcomes_independent_of_expected_holders",
     "step_independent_of_expected_holders", "ok_is_a_reply", "ok_needs_quorum", "ok_under_query_cfg",
     "below_quorum", "finished_never_ok_unchecked", "timeout_never_ok",
-    "split_returns_all_versions", "split_is_complete", "merged_is_transaction_union", "merged_covers_all",
+    "split_returns_all_versions", "split_is_complete", "split_carries_every_version", "merged_is_transaction_union", "merged_covers_all",
     "merge_perm_invariant", "split_tx_is_union", "split_reg_is_union", "split_pad_is_max",
     "api_ok_is_reply_or_merge", "api_ok_from_single_attempt", "api_err_is_an_attempts_error",
     "joined_caller_refuted", "merge_forked_register_refuted", "merge_mixed_kinds_refuted",
@@ -26,7 +26,9 @@ THEOREMS = [
 RULE = ("histories of 2-14 events on a real client-mode SwarmDriver: 1-4 callers (raw oneshot callers and real "
         "get_record_from_network futures, 15 %% of the histories being multi-attempt reads: RetryStrategy::N(2..4), quorum >= 2, the "
         "harness playing the driver in every attempt with the same single holder / fresh peers / one more peer per attempt "
-        "answering, on a paused tokio clock so the real back-off sleeps are free) on 1-2 keys with equal/different quorum (One, Majority, All, N(1..7), "
+        "answering, on a paused tokio clock so the real back-off sleeps are free; reads by a NODE whose own record store holds the "
+        "same / other / no content for the key, every quorum; reads with 5-8 distinct versions in one GET, sampled arrival "
+        "orders) on 1-2 keys with equal/different quorum (One, Majority, All, N(1..7), "
         "N(huge)) / target / is_register / expected_holders settings (empty, subset / superset of / disjoint from the "
         "responders, the local peer; fewer, as many and more holders than the quorum; holders answering first or last), 0-8 responders incl. the local peer (None and Some(self)), 1-4 "
         "content versions (chunks, transactions, registers, scratchpads, unparsable headers, payment kinds; same "
@@ -417,6 +419,10 @@ def oracle_factory(cgs):
         # ---- histories
         h = Hist(case, o)
         v += check_abs(o["abs"])
+        for spec, got in zip(case.get("local") or [], o.get("local") or []):
+            held = got.get("held")
+            if not got.get("put") or held is None or held["c"] != spec["c"] or held["key"] != spec["key"]:
+                v.append(("local-store-setup", "the reader's own store does not hold %s after the put: %s" % (cjson(spec), cjson(got))))
         final_q = {d["q"] for d in h.final_pending}
         for cid, c in enumerate(h.callers):
             outs = h.outcomes.get(cid, [])
@@ -743,6 +749,78 @@ def gen_retry_hist(rng):
     return {"kind": "hist", "events": evs}
 
 
+def gen_local_hist(rng):
+    """the reader is a NODE whose own record store holds the same content / other content / nothing for the key
+    being read (or something under another key), for every quorum; the local copy is not a peer: without
+    replies nothing may be answered, and a read succeeds only on >= Q distinct responders (libp2p hands the
+    local copy to the handlers as a reply with peer None, which counts as the one local responder)."""
+    key = rng.randrange(1, 6)
+    pool = rng.choice([[c_raw(1), c_raw(2)], [c_reg(0, [1, 2]), c_reg(0, [1])], [c_pad(True, 2, 1), c_pad(True, 3, 2)],
+                       [c_tx([1]), c_tx([2])]])
+    held = rng.choice(["same", "same", "same", "other", "none", "otherkey"])
+    local = {"same": [rec(key, pool[0])], "other": [rec(key, pool[1])], "none": [],
+             "otherkey": [rec(key + 1, pool[0])]}[held]
+    quorum = rng.choice([["one"], ["maj"], ["maj"], ["all"], ["all"], ["n", 1], ["n", 2], ["n", 3], ["n", 5]])
+    qv = quorum_value(quorum, 5)
+    t = rng.random()
+    target = None if t < 0.5 else rec(key, pool[0]) if t < 0.85 else rec(key, pool[1])
+    isreg = target is not None and pool[0]["p"][0] == "reg" and rng.random() < 0.5
+    evs = [{"e": "cmd", "key": key, "cfg": cfg(quorum, target, isreg, holders=gen_holders(rng, quorum)),
+            "api": rng.random() < 0.2}]
+    if rng.random() < 0.3:
+        evs.append({"e": "cmd", "key": key, "cfg": cfg(quorum, target, isreg)})
+    replies = []
+    if rng.random() < 0.5 and local:
+        replies.append((None, local[0]["c"]))           # what kad reports for the copy in the local store
+    for p in rng.sample(range(1, 9), rng.choice([0, 0, 1, max(0, qv - 2), max(0, qv - 1), min(qv, 8)])):
+        replies.append((p, pool[0] if rng.random() < 0.85 else pool[1]))
+    rng.shuffle(replies)
+    for p, c in replies:
+        evs.append({"e": "found", "q": 0, "peer": p, "rec": rec(key, c), "step": 1})
+    term = rng.choice(["finished", "finished", "timeout", "notfound", None])
+    if term:
+        evs.append({"e": term, "q": 0, "key": key})
+    return {"kind": "hist", "node": True, "local": local, "events": evs}
+
+
+def gen_many_versions_hist(rng):
+    """5, 6 or 7 distinct content versions inside one GET (up to CLOSE_GROUP_SIZE + 2 holders answer, each with a
+    version of its own: registers where every holder has seen an op the others have not, transactions,
+    scratchpads, chunks), every arrival order sampled, no majority, then a terminator: the SplitRecord / the merge
+    must carry every version any peer returned."""
+    nv = rng.choice([5, 6, 6, 7, 7, 8])
+    fam = rng.choice(["reg", "reg", "tx", "pad", "raw", "regcommon"])
+    if fam == "reg":
+        vers = [c_reg(0, [i]) for i in range(1, nv + 1)]
+    elif fam == "regcommon":
+        vers = [c_reg(1, [50, i]) for i in range(1, nv + 1)]
+    elif fam == "tx":
+        vers = [c_tx([i]) for i in range(1, nv + 1)]
+    elif fam == "pad":
+        cs = rng.sample(range(1, 40), nv)
+        vers = [c_pad(True, cs[i], i + 1) for i in range(nv)]
+    else:
+        vers = [c_raw(i) for i in range(1, nv + 1)]
+    key = rng.randrange(1, 6)
+    quorum = rng.choice([["n", 2], ["n", 3], ["maj"], ["all"], ["n", 9]])
+    replies = [(i + 1, v) for i, v in enumerate(vers)]
+    if rng.random() < 0.3:                                 # one of the holders is the reader itself
+        i = rng.randrange(nv)
+        replies[i] = (rng.choice([None, 0]), vers[i])
+    rng.shuffle(replies)
+    extra = []
+    if rng.random() < 0.35:                                # a second holder of some version, late
+        extra.append((9 + rng.randrange(0, 5), vers[rng.randrange(nv)]))
+    # api callers: the model side tries every iteration order of the split map (7! orders at most)
+    evs = [{"e": "cmd", "key": key, "cfg": cfg(quorum), "api": nv <= 7 and rng.random() < 0.4}]
+    if rng.random() < 0.25:
+        evs.append({"e": "cmd", "key": key, "cfg": cfg(quorum)})
+    for p, c in replies + extra:
+        evs.append({"e": "found", "q": 0, "peer": p, "rec": rec(key, c), "step": rng.choice([1, 5, 6, 7])})
+    evs.append({"e": rng.choice(["finished", "finished", "finished", "timeout"]), "q": 0, "key": key})
+    return {"kind": "hist", "node": rng.random() < 0.2, "local": [], "events": evs}
+
+
 def gen_hist(rng, deep=False):
     pool = content_pool(rng)
     nkeys = rng.choice([1, 1, 1, 2])
@@ -887,6 +965,10 @@ def gen(ctx):
         cases.append(gen_holders_hist(rng) if rng.random() < 0.2 else gen_hist(rng, deep=not quick))
     for _ in range(300 if quick else 2500):
         cases.append(gen_retry_hist(rng))
+    for _ in range(250 if quick else 2000):
+        cases.append(gen_local_hist(rng))
+    for _ in range(200 if quick else 1500):
+        cases.append(gen_many_versions_hist(rng))
     for _ in range(300 if quick else 1000):
         cases.append(gen_split(rng, 16 if quick else 32))
     for _ in range(300 if quick else 2000):
